@@ -329,6 +329,14 @@ def implies(a, b):
     return SymBool(z3.Implies(lb(a), lb(b)))
 
 
+def approx(a, b, scale=1, eps=fractions.Fraction(1, 10 ** 9)):
+    """|a - b| <= eps * scale: equality up to the rounding of *concrete* float sub-computations the
+    code under test performs in Python/numpy floats (the oracle uses exact rationals)."""
+    d = lift(a) - lift(b)
+    bound = _rv(eps) * lift(scale)
+    return SymBool(z3.And(d <= bound, -d <= bound))
+
+
 def eq(a, b):
     """Obligation-level equality (never forks)."""
     if is_sym(a) or is_sym(b) or z3.is_expr(a) or z3.is_expr(b):
@@ -717,15 +725,25 @@ def _robust_model(ctx, o, e, m, known_id):
     inputs = ctx.notes.get("inputs")
     if not inputs:
         return m
-    extra = [z3.Not(e)]
+    base = [z3.Not(e)]
     if o.known:
         regs = z3.Or(*[lb(r) for _, r in o.known])
-        extra.append(regs if known_id is not None else z3.Not(regs))
-    for i, x in enumerate(inputs):
-        k = z3.Int(f"rob!{i}")
-        extra += [lift(x) * 64 == z3.ToReal(k), k >= -65536, k <= 65536]
-    r, m2 = ctx.check(*extra, want_model=True)
-    return m2 if r == "sat" else m
+        base.append(regs if known_id is not None else z3.Not(regs))
+    scales = ctx.notes.get("scales") or []
+    # attempt 1: multiples of 1/8 in [-64, 64], scale parameters (delta_empty, alpha ...) in [1/2, 8]
+    # attempt 2: multiples of 1/64 in [-1024, 1024]
+    for den, lim, with_scales in ((8, 512, True), (64, 65536, True), (64, 65536, False)):
+        extra = list(base)
+        for i, x in enumerate(inputs):
+            k = z3.Int(f"rob!{i}")
+            extra += [lift(x) * den == z3.ToReal(k), k >= -lim, k <= lim]
+        if with_scales:
+            for x in scales:
+                extra += [lift(x) >= _rv(fractions.Fraction(1, 2)), lift(x) <= 8]
+        r, m2 = ctx.check(*extra, want_model=True)
+        if r == "sat":
+            return m2
+    return m
 
 
 def _record_violation(ctx, o, e, m, res, max_violations):
